@@ -623,9 +623,10 @@ Definition sz_open_ext (s : size) : bool :=
 (** the count is in the root; an extensible SIZE without upper bound is
     excluded (the library raises TypeError on it) *)
 Definition size_root_scope (s : size) (n : Z) : bool := sz_in_root s n && negb (sz_open_ext s).
-(** ... or outside the root of an extensible SIZE, with fewer than 16K items *)
+(** ... or outside the root of an extensible SIZE (any count: the repaired
+    library fragments there as 11.9.3.8 prescribes) *)
 Definition size_scope_x (s : size) (n : Z) : bool :=
-  size_root_scope s n || (sz_ext s && negb (sz_open_ext s) && negb (sz_in_root s n) && (n <? 16384)).
+  size_root_scope s n || (sz_ext s && negb (sz_open_ext s) && negb (sz_in_root s n)).
 
 (** the shape shared by the four sized encoders of the implementation *)
 Definition im_sized {A} (sz : size) (enc1 : A -> result bits) (l : list A) : result bits :=
@@ -716,7 +717,7 @@ Section Sized.
      let n := Z.of_nat (length l) in
      if size_ext sz then
        if size_in_root sz n then let* r := root in Ok (false :: r)
-       else let* len := enc_len_single n in let* body := enc_all enc1 l in Ok (true :: len ++ body)
+       else let* r := enc_frag (frag_fuel l) enc1 l in Ok (true :: r)
      else root) =
     (let* items := map_result g l in let* fs := sized sz items in Ok (serialise fs)).
   Proof.
@@ -728,17 +729,15 @@ Section Sized.
         rewrite size_in_root_eq by assumption. rewrite Ein.
         destruct (im_sized sz enc1 l); reflexivity.
       + destruct (im_sized sz enc1 l); reflexivity.
-    - cbn [orb] in H. apply andb_prop in H. destruct H as [H Hn].
+    - cbn [orb] in H.
       apply andb_prop in H. destruct H as [H Hout]. apply andb_prop in H. destruct H as [Hx Hop].
       replace (size_ext sz) with (sz_ext sz) by (destruct sz; reflexivity). rewrite Hx.
       rewrite size_in_root_eq by (try assumption; destruct sz; exact Hx).
       apply negb_true_iff in Hout. rewrite Hout.
-      rewrite enc_len_single_eq by lia. destruct (Z.of_nat (length l) <? 16384) eqn:E; [|discriminate].
-      cbn [bind]. rewrite enc_all_concat, items_bits.
+      rewrite enc_frag_refines, items_bits.
       destruct (map_result g l) as [items|] eqn:Ei; cbn [bind]; [|reflexivity].
       unfold sized. rewrite (map_result_length _ _ _ Ei), Hout, Hx. cbn [bind serialise flat_map ser app].
-      rewrite app_nil_r. rewrite unbounded_small by (rewrite map_length, (map_result_length _ _ _ Ei); lia).
-      rewrite map_length, (map_result_length _ _ _ Ei). reflexivity.
+      rewrite app_nil_r. reflexivity.
   Qed.
 End Sized.
 
@@ -1848,14 +1847,16 @@ Example open_type_16k_deviates :
   x691_scope false [] 3 t v = false.
 Proof. cbv zeta. split; [|split]; vm_compute; reflexivity. Qed.
 
-(** the same limitation for a count outside the root of an extensible SIZE:
-    OCTET STRING (SIZE(0..3, ...)) with 16384 octets *)
-Example size_extension_16k_deviates :
+(** a count of 16K or more outside the root of an extensible SIZE is in scope
+    since the repair C01-per-size-extension-fragmentation (before it the
+    library wrote one fragment marker and then all the data): OCTET STRING
+    (SIZE(0..3, ...)) with 16384 octets is fragmented as 11.9.3.8 prescribes *)
+Example size_extension_16k_in_scope :
   let t := TOctets (SzRange 0 (Some 3) true) in
   let v := VBytes (repeat 0 (Z.to_nat 16384)) in
-  uper_encode false 3 [] t v = Err EUnmodelled /\
-  octets_are (x691_encode_octets false [] 3 t v) 16387 (hex "e080") = true /\
-  x691_scope false [] 3 t v = false.
+  octets_are (uper_encode false 3 [] t v) 16387 (hex "e080") = true /\
+  uper_encode false 3 [] t v = x691_encode_octets false [] 3 t v /\
+  x691_scope false [] 3 t v = true.
 Proof. cbv zeta. split; [|split]; vm_compute; reflexivity. Qed.
 
 (** NEW: uper.py always re-indexes an explicit permitted alphabet; X.691
